@@ -112,10 +112,24 @@ func zzH_C13_flushRaceOut() {
 	}
 	r.serverOut = &zzChunks13{chunks: chunks}
 	confirm := verifNondetBool()
+	tmux := verifNondetBool()
+	if tmux {
+		// inside tmux (normal mode) the relay has a second client-side sink that by-passes tmux: it carries the output
+		// of a running transfer, the ordinary sink everything else
+		r.bypassTmuxChan = make(chan []byte, 20)
+	}
 	go r.wrapOutput()
 	go r.flushHandshakeBuffer(confirm)
 	verifQuiesce()
-	zzExpect13(zzDrain13(r.osStdoutChan), want, "to client")
+	if tmux && confirm {
+		zzExpect13(zzDrain13(r.bypassTmuxChan), want, "to client (transfer sink)")
+		verifAssert(len(r.osStdoutChan) == 0, "output of a confirmed transfer on the ordinary sink")
+	} else {
+		zzExpect13(zzDrain13(r.osStdoutChan), want, "to client")
+		if tmux {
+			verifAssert(len(r.bypassTmuxChan) == 0, "output parked during a refused handshake went to the transfer sink")
+		}
+	}
 	verifAssert(len(r.osStdinChan) == 0, "server bytes delivered to the server side")
 	verifAssert(r.stdoutBuffer.popBuffer() == nil, "bytes left in the handshake queue")
 	verifReach("flushed")
